@@ -535,6 +535,9 @@ pub struct ContainerLoc {
     pub body_len: usize,
     pub n_blocks: usize,
     pub n_records: i32,
+    /// the header's global record counter (0-based index of the container's first record) and base count
+    pub record_counter: i64,
+    pub bases: i64,
     pub landmarks: Vec<usize>,
     /// offset of the header's CRC32 (4 bytes LE)
     pub crc_offset: usize,
@@ -550,8 +553,8 @@ fn parse_container_header(file: &[u8], start: usize) -> Result<ContainerLoc, Str
     let _start = c.itf8()?;
     let _span = c.itf8()?;
     let n_records = c.itf8()?;
-    let _counter = c.ltf8()?;
-    let _bases = c.ltf8()?;
+    let record_counter = c.ltf8()?;
+    let bases = c.ltf8()?;
     let n_blocks = c.itf8()?;
     let n_landmarks = c.itf8()?;
     if n_blocks < 0 || n_landmarks < 0 {
@@ -573,6 +576,8 @@ fn parse_container_header(file: &[u8], start: usize) -> Result<ContainerLoc, Str
         body_len: len as usize,
         n_blocks: n_blocks as usize,
         n_records,
+        record_counter,
+        bases,
         landmarks,
         crc_offset,
     })
